@@ -328,6 +328,7 @@ void run_queue(bool lin_mode) {
                 // they can only be the final polls (stop flag) and are consistent with an empty queue anyway
                 complete.push_back(op);
             }
+            if (complete.size() > 40) { sim::probe("linearizability check skipped: more than 40 operations in the history"); }
             if (complete.size() <= 40) {
                 lin::Checker chk{complete};
                 const bool ok = chk.check();
